@@ -63,6 +63,10 @@ CLAIMED.update({
    text=STRUCT_TXT % "the six counting estimators match the template length-check / full-range loop / count of equal same-index pairs / count over length, aliases are pure delegations, every panic edge of the estimators is a precondition, machine-discharged or individually argued, and the MLE optimiser's start value is clamped into a bracket within [0,1]",
    technique="template matching and sibling comparison over rustc HIR, panic-edge inventory on MIR, clamp-chain rule against the external solver's contract",
    ref="DESIGN.md §4 C14"),
+ "C15": dict(category="other",
+   text="Decides ONLY structural clauses of the tracker (the inductive invariant over all update sequences is not proved): accessor shapes (maximum = root node, strict comparison), the shape of one propagation step of update (leaf written only if strictly smaller; parent m + k/2 receives max(child, sibling k ^ 1); the walk ends only at the root, when the parent equals both children, or when it would not decrease), the 2m-1 node layout, and reset == new.",
+   technique="shape rules over rustc HIR (definitions, control dependence, loop-exit classification of the update step) and the RESET field-effect analysis",
+   ref="DESIGN.md §4 C15 / §8"),
  "C17": dict(category="other",
    text=STRUCT_TXT % "the permutation array is only swapped or set to identity (who-may-write), reset == new for FYshuffle, exactly one cursor increment per draw, read/swap/increment order of next. Uniformity is not decided.",
    technique="who-may-write rule, field effect analysis and InitSpec comparison, counter and ordering rules over rustc HIR",
@@ -81,7 +85,6 @@ NA = {
  "C01": "expectation / mean-squared-error over hash randomness: the truth lies in numeric rate constants, not in the shape of the code; its structural preconditions are decided under C02, C12, C14",
  "C03": "expectation and variance over hash randomness and a uniform-permutation law; structural preconditions are decided under C04 and C14",
  "C08": "expectation over hash randomness at every fill ratio; its anchored mechanisms are clauses of C04 and C09 and are decided there",
- "C15": "inductive invariant over array contents and index arithmetic of the implicit tree after any update history; needs a proof or model-checking run, not a dataflow or shape argument (the accessor shape it shares with pruning is checked under C02/C11)",
  "C16": "a distribution law; even the range clause [0,1) needs reasoning about transcendental constants that no static domain in reach provides",
 }
 
